@@ -287,7 +287,7 @@ pub fn gen(rng: &mut Rng, idx: usize, n: usize, thorough: bool) -> String {
     let maxops = if thorough { 40 } else { 26 };
     let mut nops = 4 + (frac * maxops) / 100 + rng.range(0, 4);
     if !compress {
-        nops = nops.min(if thorough { 22 } else { 16 });
+        nops = nops.min(16); // uncompressed SDDs grow exponentially with the program
     }
     if small {
         nops = nops.min(9);
